@@ -1415,6 +1415,7 @@ func TestC09(t *testing.T) {
 	c09WitnessBorrowStrict(t, app, base, tr, 2)
 	c09WitnessEmodeMsgV1(t, app, base, tr)  // regression witness of D38 (fixed f18ae51): generation-1 MsgLiquidateBorrow ignored e-mode
 	c09WitnessAuctionTypesV2(t, app, base, tr) // English-only and no-type whitelistings
+	c09WitnessTailAfterNonVault(t, app, base, tr) // vault at the END of the list goes unsafe after borrow / external seizures (seed s107)
 
 	// ---- pure helper: the int64 wrap of offset+batchSize (Props/C09.lean slice_in_bounds_wrap_counterexample, finding D41:
 	//      the helper returns a negative end; monitor slice_bounds_wrap fires on the unchanged tree)
@@ -2241,6 +2242,87 @@ func c09WitnessTransitBandMsgFirst(t *testing.T, app *chain.App, base sdk.Contex
 		}
 		f.block()
 	}
+}
+
+// Generation 2, vault sweep, borrow sweep and external keepers on ONE chain: six vaults, the lend borrows are seized by the borrow
+// sweep, an external keeper has collateral auctioned — every one of these goes through the shared `CreateLockedVault`, none of them
+// may touch the vault counter the vault sweep windows its list with. THEN the vault at the END of the list goes unsafe: it must be
+// seized within the bound (`seized_within_bound` is armed for it; `vault_counter_follows_vault_seizures` on every transition).
+// Lean: C09.nonvault_seizure_leaves_vault_window.
+func c09WitnessTailAfterNonVault(t *testing.T, app *chain.App, base sdk.Context, tr *Trace) {
+	ctx, _ := base.CacheContext()
+	f := c09Build(t, app, ctx, 2, NewRng(81), tr, true)
+	c09LendFixture(f)
+	f.setBatch(3)
+	for _, a := range f.apps {
+		f.setWl2E(a, true, false)
+	}
+	app.NewaucKeeper.SetAuctionParams(f.ctx, auctionsV2types.AuctionParams{AuctionDurationSeconds: 3600, Step: sdk.MustNewDecFromStr("0.1"),
+		WithdrawalFee: sdk.ZeroDec(), ClosingFee: sdk.ZeroDec(), MinUsdValueLeft: 100000, BidFactor: sdk.MustNewDecFromStr("0.1"),
+		LiquidationPenalty: sdk.MustNewDecFromStr("0.1"), AuctionBonus: sdk.ZeroDec()})
+	tr.Line("liq.begin", "v2", "3")
+	prod := f.products[0]
+	for i := 0; i < 6; i++ {
+		cr := int64(2000)
+		if i == 5 {
+			cr = 1030 // the tail vault: 3 % above its liquidation ratio
+		}
+		if res := f.createVault(f.users[i], prod, sdk.NewInt(40000000), cr); res != "ok" {
+			t.Fatalf("witness: create vault %d: %s", i+1, res)
+		}
+	}
+	f.block()
+	// (1) every lend borrow far under water: the borrow sweep seizes them (batch 3: two or three blocks)
+	f.setPrice(f.lendCol, 1000000, true)
+	f.setPrice(f.lendCol2, 1400000, true)
+	for i := 0; i < 3; i++ {
+		f.block()
+	}
+	// (2) an external keeper: reserve funds for (app 1, first debt asset), then the external liquidation
+	u0 := f.users[0]
+	debt, col := f.debts[0], f.collat[0]
+	for _, m := range []string{"reserve", "external"} {
+		f.envLine()
+		f.accr = nil
+		pre := f.pre()
+		lid, aid := f.ids()
+		var res string
+		var head []string
+		if m == "reserve" {
+			bal := f.app.BankKeeper.GetBalance(f.ctx, u0, f.denom(debt)).Amount
+			res = c09Deliver(f.app, f.ctx, &liq2types.MsgAppReserveFundsRequest{From: u0.String(), AppId: 1, AssetId: debt, TokenQuantity: sdk.NewCoin(f.denom(debt), sdk.NewInt(1000000))})
+			head = []string{"1", u(debt), "1", "1000000", bal.String()}
+		} else {
+			bal := f.app.BankKeeper.GetBalance(f.ctx, u0, f.denom(col)).Amount
+			res = c09Deliver(f.app, f.ctx, &liq2types.MsgLiquidateExternalKeeperRequest{From: u0.String(), AppId: 1, Owner: u0.String(),
+				CollateralToken: sdk.NewCoin(f.denom(col), sdk.NewInt(7000000)), DebtToken: sdk.NewCoin(f.denom(debt), sdk.NewInt(5000000)),
+				CollateralAssetId: col, DebtAssetId: debt, IsDebtCmst: false})
+			head = []string{"1", u(col), u(debt), "7000000", "5000000", bal.String()}
+		}
+		fields := append(head, pre...)
+		fields = append(fields, "=>", res)
+		fields = append(fields, f.post(lid, aid)...)
+		f.tr.Line("liq."+map[string]string{"reserve": "reserve", "external": "ext"}[m], fields...)
+		tr.Set("witness_tail_"+m+"_msg", res)
+	}
+	lid, _ := f.ids()
+	tr.Set("witness_tail_nonvault_locked_vaults", lid)
+	tr.Set("witness_tail_vault_counter_after_nonvault_seizures", f.app.VaultKeeper.GetLengthOfVault(f.ctx))
+	// (3) the collateral of the vault product loses 6 %: only the tail vault (3 % margin) is unsafe, the others (100 % margin) stay
+	ep, _ := f.app.AssetKeeper.GetPairsVault(f.ctx, prod)
+	pair, _ := f.app.AssetKeeper.GetPair(f.ctx, ep.PairId)
+	tw, _ := f.app.MarketKeeper.GetTwa(f.ctx, pair.AssetIn)
+	f.setPrice(pair.AssetIn, tw.Twa*94/100, true)
+	vs := f.app.VaultKeeper.GetVaults(f.ctx)
+	tail := vs[len(vs)-1].Id
+	seizedAfter := 0
+	for b := 1; b <= 6; b++ {
+		f.block()
+		if _, ok := f.app.VaultKeeper.GetVault(f.ctx, tail); !ok && seizedAfter == 0 {
+			seizedAfter = b
+		}
+	}
+	tr.Set("witness_tail_vault_seized_after_blocks", seizedAfter)
 }
 
 // statistics only: vaults whose ratio is at or above the liquidation ratio on the recorded debt but below it after the
